@@ -183,8 +183,14 @@ def gen_together(r, ncases, parallel):
             order = order + ["tp"]
             delays += ",0"
         ops.append(f"su.together fans={','.join(order)} delays_us={delays}")
-        k = r.below(5)
-        if k == 4:
+        k = r.below(6)
+        if k == 5 and n >= 2:
+            # some fans are analysed from scratch again while others only lost their PWM map (RPM curve kept): the map-only
+            # sweep of the latter takes turns with the full analyses of the former, too (seed C16h: two different locks)
+            for j, fid in enumerate(r.shuffle(ids)):
+                ops.append(f"su.reset fan={fid}" if j % 2 == 0 else f"su.delmap fan={fid}")
+            ops.append(f"su.together fans={','.join(r.shuffle(ids))} delays_us={','.join(str(r.range(0, 1500)) for _ in ids)}")
+        elif k == 4:
             # the stored PWM map of some fans is lost (RPM curve kept): only the map is computed again, still one at a time
             for fid in ids:
                 if r.chance(0.7):
